@@ -218,7 +218,14 @@ class Sector(EconomicObject):
         if term in self.GetVariables():
             # (Blanks do not count: the alias pass of the Model re-renders '0.0' as '0.0 '.)
             rhs = self.EquationBlock[term].RHS().strip()
-            if rhs == '' or rhs == '0.0':
+            is_placeholder = (rhs == '')
+            if not is_placeholder:
+                # Identically zero, however it is spelled ('0.0', '0.' - the way the government sectors declare T).
+                try:
+                    is_placeholder = (float(rhs) == 0.)
+                except ValueError:
+                    pass
+            if is_placeholder:
                 self.SetEquationRightHandSide(term, eqn)
         else:
             self.AddVariable(term, desc, eqn)
